@@ -18,7 +18,8 @@ T6 = ["r", "r.a", "r.a.x", "r.a.y", "r.b", "r.b.x", "r.c"]
 T5 = ["r", "r.a", "r.a.x", "r.a.x.k", "r.b", "r.b.y"]
 TX = ["r", "r.a", "r.a.x", "r.b", "x", "x.y"]  # a second top-level package (e.g. an external library that was included)
 T4P = ["r", "r.a", "r.a.x", "r.ab", "r.c"]  # T4 with a sibling whose name string-extends another sibling's name
-TREES = {"T4": T4, "T6": T6, "T5": T5, "TX": TX, "T4P": T4P}
+T4U = ["r", "r.a", "r.a.b", "r.a_b", "r.c"]  # a sibling's name equals a nested name with the dot replaced by another character
+TREES = {"T4": T4, "T6": T6, "T5": T5, "TX": TX, "T4P": T4P, "T4U": T4U}
 
 
 def shape_name(rule: dict) -> str:
@@ -173,9 +174,9 @@ def shuffled(draw, seq):
 
 
 @st.composite
-def import_relation(draw, tree, focus=(), max_edges=16):
+def import_relation(draw, tree, focus=(), max_edges=16, grand=False):
     """Subset of candidate edges; about half of the draws are biased to touch the focus modules."""
-    cand = M.candidate_edges(tree)
+    cand = M.candidate_edges(tree, grand=grand)
     if not cand:
         return []
     focus = set(focus)
@@ -331,7 +332,9 @@ def rule_cases(draw, root="q", max_modules=14):
         side = draw(st.sampled_from(["subj", "obj"]))
         if rule.get(side) and rule[side]["kind"] in KINDS:
             rule[side]["dup"] = draw(st.integers(0, 4))
-    imports = draw(import_relation(tree, focus=rule_focus(tree, rule)))
+    # a quarter of the relations may contain imports from a package node to a module two or more levels below it (a directly
+    # built architecture can have them, a scanned one cannot; the statement's set semantics decide them like any other import)
+    imports = draw(import_relation(tree, focus=rule_focus(tree, rule), grand=draw(st.integers(0, 3)) == 0))
     spec = {"tree": tree, "imports": [list(e) for e in imports], "rule": rule}
     if not rule.get("anything") and draw(st.integers(0, 5)) == 0:
         # the same rule with one 'named' side given as an anchored regex alternation of exactly those names: the reference
